@@ -236,9 +236,13 @@ type cycleResult struct {
 // separate goroutine. It returns false if the wall-clock watchdog fired (=> inconclusive; the
 // caller must stop, the goroutine may still be running). A stack overflow is a Go fatal error:
 // it kills the child and the driver reports it against the key written with Note.
-func (e *eng) printCycle(g cyc, timeout time.Duration) (ok bool) {
+func (e *eng) printCycle(g cyc, timeout time.Duration, state string) (ok bool, texts []string) {
 	c := e.c
-	c.Note("key=C15 cycle-print fatal %s\nstr/repr of cyclic value, shape %s: %s", g.shape, g.shape, g.desc)
+	skey := g.shape
+	if state != "mutable" {
+		skey = g.shape + " " + state
+	}
+	c.Note("key=C15 cycle-print fatal %s\nstr/repr of cyclic value (%s), shape %s: %s", skey, state, g.shape, g.desc)
 	done := make(chan cycleResult, 1)
 	go func() {
 		var out cycleResult
@@ -267,19 +271,20 @@ func (e *eng) printCycle(g cyc, timeout time.Duration) (ok bool) {
 	select {
 	case res = <-done:
 	case <-time.After(timeout):
-		c.Inconclusive("str/repr of a cyclic value (shape %s: %s) did not return within %v", g.shape, g.desc, timeout)
-		return false
+		c.Inconclusive("str/repr of a cyclic value (%s, shape %s: %s) did not return within %v", state, g.shape, g.desc, timeout)
+		return false, nil
 	}
 	c.Eval(1)
 	c.Count("cyclic_graphs_printed", 1)
 	c.Count("cyclic_print_calls_returned", len(res.texts))
 	e.cover("cycle_shapes", g.shape)
+	e.cover("cycle_states", state)
 	switch {
 	case res.p != nil:
-		c.Violation("C15 cycle-print panic "+g.shape, fmt.Sprintf("str/repr of a cyclic value panicked (%s): %v", g.desc, res.p),
+		c.Violation("C15 cycle-print panic "+skey, fmt.Sprintf("str/repr of a cyclic value panicked (%s): %v", g.desc, res.p),
 			map[string]any{"shape": g.shape, "desc": g.desc, "panic": res.p.String(), "stack": res.p.Stack})
 	case res.err != nil:
-		c.Violation("C15 cycle-print error "+g.shape, fmt.Sprintf("str/repr of a cyclic value failed (%s): %v", g.desc, res.err),
+		c.Violation("C15 cycle-print error "+skey, fmt.Sprintf("str/repr of a cyclic value failed (%s): %v", g.desc, res.err),
 			map[string]any{"shape": g.shape, "desc": g.desc, "err": res.err.Error()})
 	default:
 		total := 0
@@ -299,6 +304,7 @@ func (e *eng) printCycle(g cyc, timeout time.Duration) (ok bool) {
 		if _, have := e.sample["cycle"]; !have {
 			e.sample["cycle"] = map[string]any{"kind": "cyclic " + g.shape, "built_as": g.desc, "repr_returned": trunc(res.texts[1], 200), "terminated": true}
 		}
+		return true, res.texts
 	}
-	return true
+	return true, nil
 }
